@@ -22,6 +22,7 @@ SRC = "crates/steel-core/src/"
 
 LOOP = "(let c17-lp () (c17-lp))"
 SETUP = [
+    "(define c17-shared 0)",
     "(define (c17-forever) (c17-forever))",
     "(define (c17-a) (c17-b)) (define (c17-b) (c17-a))",
     "(define (c17-count i) (c17-count (+ i 1)))",
@@ -33,6 +34,9 @@ SETUP = [
 ]
 # name -> looping expression (never terminates on its own)
 SHAPES = {
+    # the interrupted evaluation runs while ANOTHER script thread keeps starting stop-the-world sections (global set!)
+    "loop-while-thread-updates-globals": "(begin (define c17-w (spawn-native-thread (lambda () (let lp ((k 0)) (if (< k 100000000) "
+                                         "(begin (set! c17-shared k) (lp (+ k 1))) 'done))))) (c17-forever))",
     "self-tail-loop": "(c17-forever)",
     "mutual-tail-loop": "(c17-a)",
     "counting-loop": "(c17-count 0)",
@@ -93,6 +97,12 @@ def translate(ck):
             % ("true" if head else "false", "true" if raises else "false", breaks, "true" if state_first else "false"))
     ck.translate("Gen_C17", text)
     return head, raises, breaks
+
+
+def c17_interrupt_lost_during_stop_the_world(case, params):
+    """The interrupted evaluation shares the engine with a script thread that keeps running stop-the-world sections: the
+    request is overwritten and the evaluation does not stop."""
+    return case.get("shape") == "loop-while-thread-updates-globals" and "did not return within" in str(case.get("why", ""))
 
 
 def run_case(ck, case, jit, bound):
@@ -177,7 +187,7 @@ def run(ck):
     tcases, tmeta = [], []
     names = list(SHAPES) if not quick else ck.rng.sample(list(SHAPES), 8)
     for name in names:
-        if "call/cc" in SHAPES[name] or "callcc" in name:
+        if "call/cc" in SHAPES[name] or "callcc" in name or "spawn-native-thread" in SHAPES[name]:
             continue
         tcases.append(list(SETUP) + ["(define c17-t (spawn-native-thread (lambda () %s)))" % SHAPES[name],
                                      "(let c17-w ([i 0]) (if (< i 20000) (c17-w (+ i 1)) 'waited))",
